@@ -5,5 +5,9 @@ CONSTANTS Names = {"f1", "f2", "f3", "f4", "tmp", "meta"}
           CacheSize = 2
           Reader = "newest"
           Cleanup = "after"
+          MetaOrder = "after"
+          MetaNames = {"meta", "etag"}
+          EtagName = "etag"
+          LMName = "lm"
 INVARIANTS ReadIsValidated
 CHECK_DEADLOCK FALSE
